@@ -5,6 +5,7 @@ import QuaiVerif.Driver.Evm
 import QuaiVerif.Driver.Codec
 import QuaiVerif.Driver.Sign
 import QuaiVerif.Driver.Trie
+import QuaiVerif.Driver.EtxQ
 /- qvdriver: `qvdriver <area>` reads protocol lines on stdin, answers one line per line. -/
 open QuaiVerif
 
@@ -18,5 +19,6 @@ def main (args : List String) : IO UInt32 := do
   | ["codec"] => ioLoop Proto.step stdin stdout (); return 0
   | ["sign"] => ioLoop Sign.step stdin stdout {}; return 0
   | ["trie"] => ioLoop Trie.step stdin stdout {}; return 0
+  | ["etxq"] => ioLoop EtxQueue.step stdin stdout {}; return 0
   | ["addr"] => ioLoop Addr.step stdin stdout {}; return 0
   | _ => IO.eprintln "usage: qvdriver <area>"; return 2
